@@ -288,3 +288,68 @@ specialise(
     bounds="one-question form; omit_instanceID spelling fixed per instance over {absent, yes, true(), TRUE, no, false()}; values length 2",
     weight=60,
 )
+
+
+@ob(
+    "C11",
+    "a.routing.namespaces",
+    timeout=400,
+    kernel=K,
+    shims=("S1", "S2", "S3", "S4"),
+    symbolic="two namespace URIs (2 symbolic characters each after 'http://'), presence of the second namespace, of an entities sheet, of a namespaced attribute:: column (3 booleans), xml() generated twice (boolean)",
+    bounds="prefixes 'ex' and 'ab' concrete (attribute names are dict keys); one-question form",
+    weight=80,
+)
+def c11_namespaces(two: bool, ent: bool, attr: bool, twice: bool, u0: int, u1: int, w0: int, w1: int) -> bool:
+    """
+    pre: 97 <= u0 <= 122 and 97 <= u1 <= 122 and 97 <= w0 <= 122 and 97 <= w1 <= 122
+    post: _ == True
+    """
+    U, W = "http://" + S(u0, u1), "http://" + S(w0, w1)
+    ns = 'ex="' + U + '"'
+    if two:
+        ns += ' ab="' + W + '"'
+    st = {"form_id": "fid", "namespaces": ns}
+    if attr:
+        st["attribute::ex:kind"] = "k"
+    wb = {"survey": [{"type": "text", "name": "q1", "label": "L"}], "settings": [st]}
+    if ent:
+        wb["entities"] = [{"dataset": "ds", "label": "a"}]
+    survey, _w, _js = build_survey(wb)
+    root = survey.xml()
+    if twice:
+        root = survey.xml()
+    want = {
+        "xmlns": "http://www.w3.org/2002/xforms",
+        "xmlns:h": "http://www.w3.org/1999/xhtml",
+        "xmlns:ev": "http://www.w3.org/2001/xml-events",
+        "xmlns:xsd": "http://www.w3.org/2001/XMLSchema",
+        "xmlns:jr": "http://openrosa.org/javarosa",
+        "xmlns:orx": "http://openrosa.org/xforms",
+        "xmlns:odk": "http://www.opendatakit.org/xforms",
+        "xmlns:ex": U,
+    }
+    if two:
+        want["xmlns:ab"] = W
+    if ent:
+        want["xmlns:entities"] = "http://www.opendatakit.org/xforms/entities"
+    got = {k: root.getAttribute(k) for k in root.attributes.keys()}
+    if sorted(got.keys()) != sorted(want.keys()):
+        return False
+    for k in want:
+        if got[k] != want[k]:
+            return False
+    p = _parts(root)
+    if p is None:
+        return False
+    prim = p[4]
+    if attr and prim.getAttribute("ex:kind") != "k":
+        return False
+    # every prefix used on any element/attribute is declared on the root
+    for e in [root] + elements(root):
+        names = [e.tagName] + list(e.attributes.keys())
+        for n in names:
+            if ":" in n and not n.startswith("xmlns"):
+                if ("xmlns:" + n.split(":")[0]) not in got:
+                    return False
+    return True
